@@ -21,7 +21,7 @@
        I(Isc) | Y(Yth) have the Thevenin / Norton line as terminal relation;
      * netlists that touch no ground index (and contain no ground-referenced
        class) have shift-invariant residuals: LT.Thevenin.ground_indep applies. *)
-Require Import LT.FieldSec LT.Circuit LT.MNA LT.Thevenin Gen.StampsGen Gen.C01model Gen.C01 Gen.C01net.
+Require Import LT.FieldSec LT.Circuit LT.MNA LT.Thevenin Gen.StampsGen Gen.C01model Gen.C01 Gen.C01net Gen.C04model.
 Local Open Scope Z_scope.
 Local Open Scope bool_scope.
 
@@ -68,14 +68,6 @@ Proof. induction N as [|e N IH]; intros v1 ib1 v2 ib2 a r.
   - rewrite !crel_cons, IH, (brel_affine (fst e) (snd e)). ring. Qed.
 
 (* ---- 2. killing = taking the linear part ------------------------------------ *)
-(* the specification of "independent sources killed and initial conditions
-   zero": the source value parameters of every component vanish *)
-Definition zero_par (pr : pname -> K) : pname -> K := fun n => match n with pIsc | pVoc => f0 | _ => pr n end.
-Definition zero_ctx (c : sctx K) : sctx K :=
-  SCtx K (kind c) (typ c) (p0 c) (p1 c) (p2 c) (p3 c) (c0 c) (c1 c) (bown c) (bextra c) (bctrl c) (bL1 c) (bL2 c)
-       (has_ic c) (ctrl_is_vsrc c) (has_arg1 c) (tp_has_src c) (zero_par (par c)).
-Definition killnet (N : netlist) : netlist := map (fun e => (fst e, zero_ctx (snd e))) N.
-
 Lemma drawn_zero cl (c : sctx K) v ib r : drawn_of cl (zero_ctx c) v ib r = linpart (drawn_of cl c) v ib r.
 Proof. destruct cl; unfold zero_ctx, zero_par; cbn [kind typ p0 p1 p2 p3 c0 c1 bown bextra bctrl bL1 bL2 has_ic ctrl_is_vsrc has_arg1 tp_has_src par];
   unfold_phys; cbn [kind typ p0 p1 p2 p3 c0 c1 bown bextra bctrl bL1 bL2 has_ic ctrl_is_vsrc has_arg1 tp_has_src par];
@@ -186,37 +178,12 @@ Qed.
 End Port.
 
 (* ---- 4. hand model of the probes --------------------------------------------- *)
-Definition ctx2 (kd : akind) (a b f : Z) (voc isc y : K) : sctx K :=
-  SCtx K kd TyOtherType a b (-1) (-1) (-1) (-1) f 0 0 0 0 false false false false
-       (fun n => match n with pVoc => voc | pIsc => isc | pY => y | _ => f0 end).
-(* I? p m {DiracDelta(t)} : a unit test current in the transform domain *)
-Definition m_test_I kd p m : cname * sctx K := (cI, ctx2 kd p m 0 f0 f1 f0).
-(* V? p m {DiracDelta(t)} with branch unknown f *)
-Definition m_test_V kd p m f : cname * sctx K := (cV, ctx2 kd p m f f1 f0 f0).
-(* Vshort_ p m 0 *)
-Definition m_short kd p m f : cname * sctx K := (cV, ctx2 kd p m f f0 f0 f0).
-Definition is_indep (cl : cname) : bool := match cl with cV | cI => true | _ => false end.
-Definition drop_ic (c : sctx K) : sctx K :=
-  SCtx K (kind c) (typ c) (p0 c) (p1 c) (p2 c) (p3 c) (c0 c) (c1 c) (bown c) (bextra c) (bctrl c) (bL1 c) (bL2 c)
-       false (ctrl_is_vsrc c) (has_arg1 c) (tp_has_src c) (par c).
-(* NetlistMixin.kill() -> _kill(independent sources + ['ICs']): V -> W (modelled
-   as a 0 V source: same constraint, its current is a free unknown), I -> O,
-   control sources keep their place with value 0 (_zero); with [ics] the
-   initial conditions of C and L are dropped, without it they are kept (the
-   behaviour when 'ICs' in the source list is never acted upon) *)
-Definition m_kill1 (ics : bool) (e : cname * sctx K) : cname * sctx K :=
-  if is_indep (fst e) then (fst e, zero_ctx (snd e)) else if ics then (fst e, drop_ic (snd e)) else e.
-Definition m_kill (ics : bool) (N : netlist) : netlist := map (m_kill1 ics) N.
-Definition m_apply_test_current ics kd (N : netlist) p m : netlist := m_kill ics N ++ [m_test_I kd p m].
-Definition m_apply_test_voltage ics kd (N : netlist) p m f : netlist := m_kill ics N ++ [m_test_V kd p m f].
-Definition m_Isc_net kd (N : netlist) p m f : netlist := N ++ [m_short kd p m f].
-
-Lemma drawn_kill1 e v ib r : drawn_of (fst (m_kill1 true e)) (snd (m_kill1 true e)) v ib r = drawn_of (fst e) (zero_ctx (snd e)) v ib r.
+Lemma drawn_kill1 (e : cname * sctx K) v ib r : drawn_of (fst (m_kill1 true e)) (snd (m_kill1 true e)) v ib r = drawn_of (fst e) (zero_ctx (snd e)) v ib r.
 Proof. destruct e as [cl c]. unfold m_kill1. cbn [fst snd]. destruct (is_indep cl) eqn:E; [reflexivity|]. cbn [fst snd].
   destruct cl; try discriminate; unfold drop_ic, zero_ctx, zero_par; unfold_phys;
   cbn [kind typ p0 p1 p2 p3 c0 c1 bown bextra bctrl bL1 bL2 has_ic ctrl_is_vsrc has_arg1 tp_has_src par];
   rewrite ?andb_false_r; split_ifs; rewrite ?(Fdiv_def (fth K)); ring. Qed.
-Lemma brel_kill1 e v ib q : brel_of (fst (m_kill1 true e)) (snd (m_kill1 true e)) v ib q = brel_of (fst e) (zero_ctx (snd e)) v ib q.
+Lemma brel_kill1 (e : cname * sctx K) v ib q : brel_of (fst (m_kill1 true e)) (snd (m_kill1 true e)) v ib q = brel_of (fst e) (zero_ctx (snd e)) v ib q.
 Proof. destruct e as [cl c]. unfold m_kill1. cbn [fst snd]. destruct (is_indep cl) eqn:E; [reflexivity|]. cbn [fst snd].
   destruct cl; try discriminate; unfold drop_ic, zero_ctx, zero_par; unfold_phys;
   cbn [kind typ p0 p1 p2 p3 c0 c1 bown bextra bctrl bL1 bL2 has_ic ctrl_is_vsrc has_arg1 tp_has_src par];
@@ -226,13 +193,13 @@ Theorem m_kill_spec (N : netlist) v ib x : kcl (m_kill true N) v ib x = kcl (kil
 Proof. induction N as [|e N [IH1 IH2]]; [split; reflexivity|]. cbn [m_kill killnet map]. fold (m_kill true N). fold (killnet N).
   rewrite !kcl_cons, !crel_cons, IH1, IH2, drawn_kill1, brel_kill1. split; reflexivity. Qed.
 
-Lemma kcl_test_I kd p m v ib r : kcl [m_test_I kd p m] v ib r = fopp (thru p m r f1).
+Lemma kcl_test_I kd p m (v ib : vec) r : kcl [m_test_I kd p m] v ib r = fopp (thru p m r f1).
 Proof. unfold kcl, m_test_I, ctx2. cbn [map sumK fst snd drawn_of]. unfold drawn_I, thru. cbn [p0 p1 par]. ring. Qed.
-Lemma crel_test_I kd p m v ib q : crel [m_test_I kd p m] v ib q = f0.
+Lemma crel_test_I kd p m (v ib : vec) q : crel [m_test_I kd p m] v ib q = f0.
 Proof. unfold crel, m_test_I. cbn [map sumK fst snd brel_of]. unfold brel_I. ring. Qed.
-Lemma kcl_V kd p m f voc v ib r : kcl [(cV, ctx2 kd p m f voc f0 f0)] v ib r = thru p m r (ib f).
+Lemma kcl_V kd p m f (voc : K) (v ib : vec) r : kcl [(cV, ctx2 kd p m f voc f0 f0)] v ib r = thru p m r (ib f).
 Proof. unfold kcl, ctx2. cbn [map sumK fst snd drawn_of]. unfold drawn_V. cbn [p0 p1 bown]. ring. Qed.
-Lemma crel_V kd p m f voc v ib q : crel [(cV, ctx2 kd p m f voc f0 f0)] v ib q = fmul (ind f q) (fsub (pv p m v) voc).
+Lemma crel_V kd p m f (voc : K) (v ib : vec) q : crel [(cV, ctx2 kd p m f voc f0 f0)] v ib q = fmul (ind f q) (fsub (pv p m v) voc).
 Proof. unfold crel, ctx2. cbn [map sumK fst snd brel_of]. unfold brel_V, dV01, pv. cbn [p0 p1 bown par]. ring. Qed.
 
 (* branch row f carries no relation of N (a fresh unknown) *)
@@ -319,7 +286,7 @@ Proof.
   { destruct St as [At Bt]. destruct S as [A B]. unfold m_apply_test_voltage, m_test_V, m_short in *. split; intros x Hx.
     - specialize (At x Hx). specialize (A x Hx). rewrite kcl_app, kcl_V in *. rewrite (proj1 (m_kill_spec N vt ibt x)) in At.
       rewrite kcl_killnet in *. rewrite (linpart_lin K (kcl N) (kcl_affine N)).
-      unfold vadd, vscal at 3. unfold thru in *.
+      unfold vadd, vscal. unfold thru in *.
       transitivity (fadd (fadd (linpart (kcl N) v ib x) (fmul (fsub (ind pa x) (ind ma x)) (ib f)))
                          (fmul (fopp a) (fadd (linpart (kcl N) vt ibt x) (fmul (fsub (ind pa x) (ind ma x)) (ibt f))))); [ring|].
       rewrite A, At. ring.
@@ -333,21 +300,14 @@ Proof.
 Qed.
 
 (* ---- 5. the returned models as netlists ---------------------------------------- *)
-(* thevenin(): V(Voc) + Z(Zth): V from the internal node a to m, Z from p to a *)
-Definition thevenin_net kd p m a f (Voc Zth : K) : netlist :=
-  [(cV, ctx2 kd a m f Voc f0 f0); (cRC, ctx2 kd p a 0 f0 f0 (fdiv f1 Zth))].
-(* norton(): I(Isc) | Y(Yth), both from p to m *)
-Definition norton_net kd p m (Isc Yth : K) : netlist :=
-  [(cI, ctx2 kd p m 0 f0 Isc f0); (cRC, ctx2 kd p m 0 f0 f0 Yth)].
-
 Lemma ind_sym (a b : Z) : @ind K a b = ind b a.
 Proof. unfold ind. rewrite Z.eqb_sym. reflexivity. Qed.
 Lemma ind_ne (a b : Z) : a <> b -> @ind K a b = f0.
 Proof. intros H. unfold ind. destruct (Z.eqb_spec a b); [contradiction | reflexivity]. Qed.
-Lemma Yeff_ctx2 kd a b f voc isc y : Yeff (ctx2 kd a b f voc isc y) = y.
+Lemma Yeff_ctx2 kd a b f (voc isc y : K) : Yeff (ctx2 kd a b f voc isc y) = y.
 Proof. unfold Yeff, ctx2. cbn [typ kind par ctype_eqb andb]. reflexivity. Qed.
 
-Theorem norton_net_rel kd p m Isc Yth i u : p <> m -> (0 <= p \/ 0 <= m) ->
+Theorem norton_net_rel kd p m (Isc Yth i u : K) : p <> m -> (0 <= p \/ 0 <= m) ->
   port_rel p m (kcl (norton_net kd p m Isc Yth)) (crel (norton_net kd p m Isc Yth)) i u <-> i = fsub (fmul Yth u) Isc.
 Proof.
   intros Hpm Hg.
@@ -379,7 +339,7 @@ Proof.
       split; [split|exact PV]; intros x Hx; [rewrite KCL, PV; reflexivity | apply CR].
 Qed.
 
-Theorem thevenin_net_rel kd p m a f Voc Zth i u :
+Theorem thevenin_net_rel kd p m a f (Voc Zth i u : K) :
   Zth <> f0 -> 0 <= a -> 0 <= f -> a <> p -> a <> m -> p <> m -> (0 <= p \/ 0 <= m) ->
   port_rel p m (kcl (thevenin_net kd p m a f Voc Zth)) (crel (thevenin_net kd p m a f Voc Zth)) i u <-> u = fadd Voc (fmul Zth i).
 Proof.
@@ -392,7 +352,8 @@ Proof.
   { intros v ib q. unfold crel, thevenin_net. cbn [map sumK fst snd brel_of]. unfold brel_V, brel_RC, dV01, ctx2. cbn [p0 p1 par bown]. ring. }
   split.
   - intros [v [ib [[A B] E]]]. subst u.
-    pose proof (B f Hf) as Bf. rewrite CR, ind_refl in Bf.
+    pose proof (B f Hf) as Bf0. rewrite CR, ind_refl in Bf0.
+    assert (Bf : fsub (fsub (vv v a) (vv v m)) Voc = f0) by (rewrite <- Bf0; ring).
     pose proof (A a Ha) as Aa. rewrite KCL in Aa. unfold thru in Aa.
     rewrite ind_refl, (ind_ne m a), (ind_ne p a) in Aa by auto.
     (* current through Z equals the source current; one terminal row gives it as i *)
@@ -476,53 +437,7 @@ Proof. unfold floating, killnet. intros H. apply Forall_map. revert H. apply For
   intros [cl c] [Hn Hc]. split; [exact Hn | exact Hc]. Qed.
 End C04.
 
-Arguments zero_ctx {K}. Arguments killnet {K}. Arguments m_kill {K}. Arguments m_kill1 {K}. Arguments m_apply_test_current {K}.
-Arguments m_apply_test_voltage {K}. Arguments m_Isc_net {K}. Arguments m_test_I {K}. Arguments m_test_V {K}. Arguments m_short {K}.
-Arguments thevenin_net {K}. Arguments norton_net {K}. Arguments ctx2 {K}. Arguments drop_ic {K}. Arguments net_determined {K}.
-
-(* ---- 7. without killing the initial conditions the probe is wrong -------------- *)
-(* V1 1 0 step 5; R1 1 2 2; C1 2 0 3 4  seen from (2, 0), at s = 1 (nodes 1, 2 -> rows 0, 1):
-   with the initial condition of C1 kept, "impedance" reads 26/7 = 13/(3(s+1/6)),
-   the driving-point impedance of the killed network is 2/7 = 1/(3(s+1/6)) *)
-Definition f2_net : netlist QcF :=
-  [(cV, ctx2 KIvp 0 (-1) 0 (qc 5 1) 0%Qc 0%Qc);
-   (cRC, SCtx QcF KIvp TyOtherType 0 1 (-1) (-1) (-1) (-1) 0 0 0 0 0 false false false false
-           (fun n => match n with pY => qc 1 2 | _ => 0%Qc end));
-   (cRC, SCtx QcF KIvp TyC 1 (-1) (-1) (-1) (-1) (-1) 0 0 0 0 0 true false true false
-           (fun n => match n with pY => qc 3 1 | pIsc => qc 12 1 | _ => 0%Qc end))].
-Definition f2_v (x : Qc) : Z -> Qc := fun n => if Z.eqb n 1 then x else 0%Qc.
-Definition f2_ib (x : Qc) : Z -> Qc := fun n => if Z.eqb n 0 then x else 0%Qc.
-
-Lemma f2_phys (ics : bool) (x : Qc) :
-  x = (if ics then qc 2 7 else qc 26 7) ->
-  phys (m_apply_test_current ics KIvp f2_net 1 (-1)) (f2_v x) (f2_ib (Qcdiv x (qc 2 1))).
-Proof.
-  intros ->. split; intros r Hr.
-  - unfold kcl. cbn [m_apply_test_current m_kill m_kill1 f2_net map app is_indep fst snd sumK drawn_of].
-    unfold drawn_V, drawn_RC, drawn_I, Yeff, dV01, thru, vv, zero_ctx, drop_ic, ctx2, m_test_I, ctx2.
-    cbn [kind typ p0 p1 bown has_ic par zero_par akind_eqb ctype_eqb andb].
-    unfold ind, f2_v, f2_ib.
-    destruct (Z.eqb_spec 0 r) as [<-|N0]; [destruct ics; vm_compute; reflexivity|].
-    destruct (Z.eqb_spec 1 r) as [<-|N1]; [destruct ics; vm_compute; reflexivity|].
-    assert (E : (-1 =? r) = false) by (apply Z.eqb_neq; lia). rewrite E.
-    destruct ics; cbn; ring.
-  - unfold crel. cbn [m_apply_test_current m_kill m_kill1 f2_net map app is_indep fst snd sumK brel_of].
-    unfold brel_V, brel_RC, brel_I, dV01, vv, zero_ctx, drop_ic, ctx2.
-    cbn [kind typ p0 p1 bown has_ic par zero_par].
-    unfold ind, f2_v.
-    destruct (Z.eqb_spec 0 r) as [<-|N0]; [destruct ics; vm_compute; reflexivity|].
-    destruct ics; cbn; ring.
-Qed.
-Theorem impedance_kills_ics_refuted :
-  exists (N : netlist QcF) (p m : Z) v ib v' ib',
-    phys (m_apply_test_current false KIvp N p m) v ib /\      (* what the probe solves when ICs are kept *)
-    phys (m_apply_test_current true KIvp N p m) v' ib' /\     (* the killed network with the test current *)
-    pv p m v <> pv p m v'.
-Proof.
-  exists f2_net, 1, (-1), (f2_v (qc 26 7)), (f2_ib (Qcdiv (qc 26 7) (qc 2 1))), (f2_v (qc 2 7)), (f2_ib (Qcdiv (qc 2 7) (qc 2 1))).
-  split; [apply (f2_phys false); reflexivity|]. split; [apply (f2_phys true); reflexivity|].
-  apply qc_neq. vm_compute. reflexivity.
-Qed.
+Arguments net_determined {K}.
 
 Print Assumptions kcl_affine.
 Print Assumptions crel_affine.
@@ -540,4 +455,3 @@ Print Assumptions probe_transfer.
 Print Assumptions thevenin_net_rel.
 Print Assumptions norton_net_rel.
 Print Assumptions net_ground_indep.
-Print Assumptions impedance_kills_ics_refuted.
